@@ -369,17 +369,27 @@ def d_nonneg(d, form, depth=0):
     # subtract a known non-negative form that shares atoms with the goal
     if depth <= 2:
         keys = set(at)
+        known = []
         for f in d:
-            if f.kind != "cmp" or isinstance(f.key[2], int) or f.op in ("==", "!="):
+            if f.kind != "cmp" or isinstance(f.key[2], int) or f.op == "!=":
+                continue
+            if f.op == "==" and sk(f.r).get("k") in ("Call", "Cond", "Str", "InitList"):
                 continue
             a, b = _lin.lin(f.l), _lin.lin(f.r)
             if a is None or b is None:
                 continue
             g = _lin.sub(a, b)
+            if f.op == "==":
+                # an equality between linear forms is two inequalities
+                known.append(g)
+                known.append(({k: -v for k, v in g[0].items()}, -g[1]))
+                continue
             if f.op in ("<=", "<"):
                 g = ({k: -v for k, v in g[0].items()}, -g[1])
             if f.op in ("<", ">"):
                 g = (g[0], g[1] - 1)
+            known.append(g)
+        for g in known:
             ga = {}
             for k, v in g[0].items():
                 kk = find(k)
@@ -713,6 +723,22 @@ READERS = {"strlen", "strcmp", "strncmp", "strcasecmp", "strncasecmp", "memcmp",
            "__bswap_16", "__bswap_32", "tolower", "toupper", "abs"}
 
 
+def _flag_pure(e):
+    """Like is_pure, but a comparison against the clock (`last_pkt + 60 > time(NULL)`) may be remembered in a flag: a
+    branch on the same comparison yields the same fact."""
+    for x in walk(e):
+        if x.get("k") == "Call" and x.get("fn") == "time" and all(cval(sk(a)) is not None for a in x.get("a", ())):
+            continue
+        if x.get("k") == "Call" and x.get("fn") not in READERS:
+            return False
+    stripped = True
+    for x in walk(e):
+        k = x.get("k")
+        if k == "Bin" and x["op"] in ASSIGN_OPS or k == "Un" and x["op"] in ("post++", "post--", "pre++", "pre--") or k in ("StmtExpr", "Other"):
+            stripped = False
+    return stripped
+
+
 def is_pure(e):
     for x in walk(e):
         k = x.get("k")
@@ -991,7 +1017,7 @@ class Analysis:
                         new.add(imp)
                     for pf in self.E.call_post(self.f, rv):
                         new.add(pf)
-                elif is_pure(rv) and _is_boolean(rv) and lp[0][2] not in _rvars(rv) and len(lp) == 1:
+                elif _flag_pure(rv) and _is_boolean(rv) and lp[0][2] not in _rvars(rv) and len(lp) == 1:
                     # a flag: `ok = (a == b) && !strcmp(..)` or `at_start = (pos == 0 || s[pos-1] == '.')`.  Testing the
                     # flag later gives what the expression said, as long as its operands are not written in between
                     # (the conditional facts are killed like any other fact)
@@ -1004,7 +1030,7 @@ class Analysis:
                             alts = _alternatives(rv, pol)
                             if alts:
                                 new.add(Imp(lhs, rel, 0, Alt(alts)))
-                    if not _narrows(lhs.get("t"), rv, d):
+                    if is_pure(rv) and not _narrows(lhs.get("t"), rv, d):
                         new.add(Fact("==", lhs, rv))
                 elif is_pure(rv) and rv.get("k") not in ("InitList", "Str") and (
                         lp[0][2] not in _rvars(rv) or _disjoint_write(lp, lhs.get("t"), rv)):
@@ -1100,7 +1126,7 @@ class Analysis:
         x = l if cl else r
         if not is_pure(l) or not is_pure(r):
             return None
-        return Fact(op, l, r), pp(sk(x))
+        return Fact(op, l, r), pp(sk(x)), sk(x)
 
     def edge_facts(self, b, si):
         """Facts generated on the si-th successor edge of block b."""
@@ -1169,8 +1195,7 @@ class Analysis:
                 eds = set()
                 for d in out:
                     ef_d = ef
-                    if su is not None and (d_holds(d, ">=", su[1], 0) or
-                                           ((AXIOM_FORMS or AXIOM_BOUNDS) and d_nonneg(d, ({su[1]: 1}, 0)))):
+                    if su is not None and (d_holds(d, ">=", su[1], 0) or _su_nonneg(d, su)):
                         # a signed value compared as unsigned, but known not to be negative here: the comparison
                         # means what it says
                         ef_d = list(ef) + [su[0]]
@@ -1528,6 +1553,17 @@ class Engine:
                     continue
                 out.append(Imp(term, relop, c, subst_fact(f, mapping)))
         return out
+
+
+def _su_nonneg(d, su):
+    """The signed operand of an unsigned comparison is known not to be negative (as a linear form: `read - 2` with
+    read > 2 known)."""
+    from . import lin as _lin
+    fact, key, expr = su[0], su[1], su[2] if len(su) > 2 else None
+    fm = _lin.lin(expr) if expr is not None else None
+    if fm is None:
+        fm = ({key: 1}, 0)
+    return d_nonneg(d, fm)
 
 
 def _recvmsg_capacity(f, call):
